@@ -21,9 +21,19 @@ CustomTypes ==
   \cup { [t |-> "a16_" \o Num(n), idx |-> 112 + n, sized |-> TRUE, words |-> n, fixed |-> 0, es |-> 0, ea |-> 0, sa |-> 16] : n \in {2, 6} }
   \cup { [t |-> "d" \o Num(8 + 4 * f) \o "_" \o Num(Elems[e].es), idx |-> 16 + 16 * f + (e - 1), sized |-> FALSE, words |-> 0,
           fixed |-> 8 + 4 * f, es |-> Elems[e].es, ea |-> Elems[e].ea, sa |-> 8] : f \in 0..4, e \in 1..6 }
-CustomParams == { [ty |-> ty, size |-> s] : ty \in CustomTypes, s \in 8..MaxSize }
+CustomParams == { [ty |-> ty, size |-> s, extra |-> -1] : ty \in CustomTypes, s \in 8..MaxSize }
+                \* the other public route to a typed view: ref_from_slice on a caller's slice (which may continue behind
+                \* the tag), then cast - the view still has the tag's rounded size, never the slice's
+                \cup { [ty |-> ty, size |-> s, extra |-> x] : ty \in {t \in CustomTypes : t.sized /\ t.sa = 8}, s \in 0..48, x \in {0, 8, 16, 24} }
 Lead8 == U32Bytes(98) \o U32Bytes(8)
+SliceCase(p) ==
+  LET id == U32Bytes(4096 + p.ty.idx)
+      n == RoundUp8(Max(p.size, 8)) + p.extra
+      mem == [i \in 1..n |-> IF i <= 4 THEN id[i] ELSE IF i <= 8 THEN U32Bytes(p.size)[i - 4] ELSE FillA(i - 1)] IN
+  [mem |-> mem, al |-> 0, calls |-> <<[op |-> "slice_cast"] @@ p.ty>>,
+   desc |-> [area |-> "custom", t |-> p.ty.t, size |-> p.size, extra |-> p.extra]]
 CustomCase(p) ==
+  IF p.extra >= 0 THEN SliceCase(p) ELSE
   LET id == U32Bytes(4096 + p.ty.idx)
       tag == [i \in 1..RoundUp8(p.size) |-> IF i <= 4 THEN id[i] ELSE IF i <= 8 THEN U32Bytes(p.size)[i - 4]
                                            ELSE IF i <= p.size THEN FillA(i - 1) ELSE PadByte] IN
